@@ -92,6 +92,29 @@ def run(rep, facts, tier):
     words = {w['name']: w for w in fx.registry()['words'] if w['in'] == 'bitstr_ext::load'}
     data = {n: w for n, w in words.items() if n and NAME.match(n)}
     rep.floor('C07.R1 data words', len(data), 60)
+    # a reading word accepts what the packers put in front of ANY following field: it does not fail because of what comes after the
+    # bits it reads.  Every reader that looks at the whole rest of the input (the NUL-terminated strings scan it): an error exit
+    # that depends on a property of that rest (whole bytes?) also depends on the scan having run into it
+    from ..pathq import edge_guards, error_blocks
+    n_rest = 0
+    for fn in sorted(fx.fns):
+        f = fx.fns[fn]
+        if not fn.startswith('bitstr_ext::') or not any(callee_of(t) == 'bitstr_ext::rest_bits' for _, t in f.calls()):
+            continue
+        n_rest += 1
+        bad = None
+        for eb in error_blocks(f):
+            gs = [expr_str(e, -10) for (_b, e, _s) in edge_guards(f, eb)]
+            on_rest = [g for g in gs if 'rest_bits' in g and ('is_bytestr' in g or 'is_u8_slice' in g or 'Rem(' in g)]
+            others = [g for g in gs if g not in on_rest]
+            if on_rest and not others:
+                bad = (eb, on_rest[0])
+        rep.add('C07.R1', 'C07.R1:reader-does-not-depend-on-what-follows:%s' % fn, bad is None,
+                'no error exit of %s depends on the shape of the rest of the input alone' % short(fn) if bad is None else
+                '%s fails when the rest of the input is not whole bytes (%s), before it has looked for the end of its own field: a string '
+                'followed by a 5-bit field cannot be parsed back (`[ 5 3 uint! "ab" 0 u8! 17 5 uint! ] >bitstr open-bitstr 3 uint cstr`)'
+                % (short(fn), bad[1][:60]), fn, f.at(bad[0]) if bad else f.j['span'])
+    rep.floor('C07.R1 readers that scan the rest of the input', n_rest, 1)
     for n in sorted(data):
         t, w, o, bang = NAME.match(n).groups()
         w = int(w)
